@@ -55,9 +55,7 @@ def H(name, defs, tier='quick'):
                    note='option combination fixed by ' + ','.join(defs))
 HARNESSES = [
     Harness('to_hex_character', 'h_hex', enforce='to_hex_character', method='LF', props=['C01', 'C08']),
-    H('escape_00', ['VX_EA=0', 'VX_ES=0']), H('escape_01', ['VX_EA=0', 'VX_ES=1']),
-    H('escape_10', ['VX_EA=1', 'VX_ES=0']), H('escape_11', ['VX_EA=1', 'VX_ES=1']),
     Harness('escape_all', 'h_escape_string', enforce='escape_string', replace=['to_codepoint'], loop_contracts=True, method='LC', props=['C01', 'C08'],
-            expect_classes={'loop_invariant_step': 1}, timeout=3000, solver='cadical', tier='thorough', mem_gb=14,
+            expect_classes={'loop_invariant_step': 1}, timeout=1500, solver='cadical', mem_gb=14,
             note='all four option combinations in one query (both flags symbolic)'),
 ]
